@@ -45,19 +45,26 @@ var alpha2 = []string{"`", "=", "~", "<", "\n", " ", "\xff", "é", ";", "!", "a"
 // runes whose low byte looks like ASCII white space, 4-byte runes
 var alpha3 = []string{"\r", "\ufeff", "\ufffd", "\u2020", "\u0420", "😊", "\"", "\\", "a", ";", "/", "\n", "'", "0", "x", "\u00a0"}
 
+// a fourth, small alphabet explored deeper: strings with escapes, line breaks and quotes
+var alpha4 = []string{"\"", "\\", "t", "\n", "a", "'"}
+
 var lexemes = []string{"a", "b1", "_x", "$left", "and", "or", "in", "by", "let", "`q`", "`a``b`", "`", "'s'", "\"t\"", "'a\\'b'", "\"\\n\"", "'", "\"",
 	"0", "007", "1.5", ".5", "5.", "1e3", "1E-2", "1e", "0x1F", "0x", "0xg", "0e0", "1.2.3", "..", ".", ",", "|", "(", ")", "[", "]", "+", "-", "*", "/", "%",
 	"=", "==", "=~", "!=", "!~", "!", "<", "<=", ">", ">=", ";", "//c\n", "// c", "\n", " ", "\t", "\\", "é", "\xff", "\x00", "~", "#", "@", "{", "}", "^", "&", "\u00a0", "\u2028",
 	"\r", "\r\n", "\ufeff", "\ufffd", "\u2020", "\u0420", "\u010d", "三", "😊", "\v", "\f", "\u0085",
 	"0x000000000000000ff", "0x0ffffffffffffffff", "0x10000000000000000", "0x00000000000000000000000000000001", "0xffffffffffffffff", "00000000000000000000000000000000001", "1e00000000000000000001",
-	"'a\\\r", "\"b\\", "'c\\\n", "`d\r`", "'e\rf'"}
+	"'a\\\r", "\"b\\", "'c\\\n", "`d\r`", "'e\rf'",
+	"\"x\\ty\nz\"", "'p\\tq\n", "r'", "000018446744073709551616", "00018446744073709551615", "0000000000000000000000000000000000000000.50", "`a``b`", "`a```", "`c````d`"}
 
 func generate(w *mon.W) {
 	maxLen := w.Pick(4, 6)
-	for ai, al := range [][]string{alpha1, alpha2, alpha3} {
+	for ai, al := range [][]string{alpha1, alpha2, alpha3, alpha4} {
 		ml := maxLen
 		if ai == 2 && ml > 5 {
 			ml = 5
+		}
+		if ai == 3 {
+			ml = w.Pick(7, 8)
 		}
 		gen.EnumStrings(al, ml, func(s string) bool {
 			w.Do(s, func(r *mon.R) { Check(s, r) })
@@ -115,10 +122,25 @@ func generate(w *mon.W) {
 
 func knownKey(s string) string { return "" }
 
+// the result of the previous Scan and a private copy of it: results must not
+// be aliased to buffers that a later call reuses
+var prevToks, prevCopy []parser.Token
+var prevSrc string
+
 // Check decides one input.
 func Check(s string, r *mon.R) {
 	r.Case = mon.Str(s)
 	got, o := mon.Scan(s)
+	if prevToks != nil {
+		for i := range prevCopy {
+			if i >= len(prevToks) || prevToks[i] != prevCopy[i] {
+				r.Violation("", "the tokens returned by Scan(%q) changed when Scan(%q) was called afterwards: token %d was %v, is now %v", prevSrc, s, i, prevCopy[i], prevToks[i])
+				return
+			}
+		}
+	}
+	prevToks, prevSrc = got, s
+	prevCopy = append(prevCopy[:0], got...)
 	if o.Anomalous() {
 		r.Inconclusive("foreign_scan_" + map[bool]string{true: "hang", false: "panic"}[o.Hung])
 		return
@@ -196,6 +218,10 @@ func Compare(s string, got []parser.Token, want []pqlref.RTok) string {
 			v, ok := pqlref.NumberValue(g.Value)
 			if !ok || !v.Equal(w.Num) {
 				return fmt.Sprintf("token %d: number %q normalised to %q, which is not a decimal spelling of the same value (%v)", i, s[w.Start:w.End], g.Value, w.Num)
+			}
+			// normalised: no superfluous leading zeros, a digit before a decimal point
+			if len(g.Value) > 1 && g.Value[0] == '0' && g.Value[1] >= '0' && g.Value[1] <= '9' || g.Value[0] == '.' {
+				return fmt.Sprintf("token %d: number %q normalised to %q, which keeps leading zeros", i, s[w.Start:w.End], g.Value)
 			}
 		case parser.TokenError:
 		default:
